@@ -2103,6 +2103,10 @@ def run(cx):
     # does not end the step's socket drain
     from props.shared import socket_drain
     socket_drain(cx, "C03.K")
+    # the RTO is 2*MSS/X and the no-feedback deadline now + RTO: a rate of 0 (a floor applied before, not after, the
+    # receive-rate cap) makes the RTO infinite and the deadline overflow in step()
+    from props.C14 import inst_rate_floor
+    inst_rate_floor(cx, "C03.R")
     # the loop and index arguments above rest on definitions elsewhere: `packet_id::is_valid(x)` as a loop-bound
     # guard is only as good as is_valid's own definition (x <= MASK), and the fragment-buffer indices are in range
     # only if the buffer is created for exactly last_fragment_id + 1 fragments, computed without overflow
